@@ -136,6 +136,25 @@ def run(P: Program, rep: Report):
         rep.check(v == ["input-text"], "C03.R6", "parse_string:text-unchanged", P.func("entrypoint", "parse_string").loc,
                   f"parse_string hands {v!r} to the splitter instead of the text it was given (removed leading lines shift every start_line)")
 
+    rep.rule("C03.R7", "document table (concrete texts run by the interpreter, see C01.R11): parse_string returns exactly the blocks the splitter cut - same number, raw texts and start lines, none dropped, merged or re-cut by the entry point or the default stack (an entry without fields is still there) - and these raw texts occur in the text in order with only white space between and around them, each on the line it reports")
+    from .. import doctable as _dt
+    _r = _dt.run_other(P, rep.tier, "tiling")
+    rep.count("documents_tiling", _r["documents"])
+    _loc = P.func("entrypoint", "parse_string").loc
+    _shown = 0
+    for _d, _msg in _r["bad"]:
+        if _shown >= 4:
+            break
+        _shown += 1
+        rep.fail("C03.R7", f"document:{_d[:40]!r}", _loc, f"for the text {_d!r}: {_msg}", {"input": _d})
+    if not _r["bad"]:
+        if _r["ok"] * 5 < _r["documents"] * 4:
+            _why = _r["undecided"][0] if _r["undecided"] else ("", "?")
+            raise AnalysisError(f"C03.R7: the interpreter could follow only {_r['ok']} of {_r['documents']} texts (e.g. {_why[0]!r}: {_why[1]})")
+        if _r["ok"] < _r["documents"]:
+            rep.not_decided.append(f"C03.R7 on {_r['documents'] - _r['ok']} of {_r['documents']} texts (constructs the interpreter does not model)")
+        rep.ok("C03.R7", f"documents:{_r['ok']}", _loc)
+
     rep.rule("C03.R9", "no unsafe memoisation in the modules this property rests on: a function decorated with lru_cache / cache / "
                       "cached_property neither takes nor returns a mutable object (else later calls see stale or shared results)")
     from . import common as _common
